@@ -17,7 +17,7 @@ demo_src = os.path.join(wt, "tests/seeded_demo.rs")
 if not os.path.exists(demo_src):
     shutil.copy(os.path.join(outd, "demo.rs"), demo_src)
 demo = open(demo_src).read()
-sh("git stash -u -q || true")           # clean tree
+# (no `git stash`: the stash is shared between worktrees)
 sh("git checkout -q -- . && git clean -fdq tests/")
 rc, o = sh("git apply --check %s/patch.diff" % outd)
 log.append(("apply --check", rc, o[-300:]))
